@@ -26,9 +26,10 @@ RULES = {
     "R5": "holder persistence and combination: table agreement; same operand order for scores and ids",
     "R6": "CLI wiring of score_chunk / select_next_plate arguments; output str(plate_id) or -1",
     "R7": "the derived screen attributes this property's code relies on (is_observed, unique_plate_ids) have their documented definitions in ScreenBase and every override",
+    "R9": "the returned plate is one the policy allows for the REAL batch: the policy is consulted unless it is None and receives (plates whose id is in the batch - observed or not -, unobserved plates not in the batch) (C16.R4 run here)",
     "R8": "the view algebra this property's code relies on: plates = one view per unique plate id, get_plate = the rows with that id, subset_(un)observed, combine / concat as unions over one parent (C14.R3 run here)",
 }
-MIN = {"R1": 3, "R2": 2, "R3": 2, "R4": 5, "R5": 5, "R6": 4, "R7": 2, "R8": 8}
+MIN = {"R1": 3, "R2": 2, "R3": 2, "R4": 5, "R5": 5, "R6": 4, "R7": 2, "R8": 8, "R9": 2}
 TRUSTED = ["np.array_split(L, n)[k] for k in range(n) partitions L (library contract)", "np.argmin returns the first minimum",
            "np.isin(ids, eligible) is an exact membership mask"]
 TECHNIQUE = "def-use slices of the candidate list, relational normal forms of the filters, writer/reader table agreement, argument wiring"
@@ -1009,7 +1010,12 @@ def r_views(ctx):
     ctx.borrow(C14.r3, "R8")
 
 
-RULE_FUNCS = [r1, r2, r2b, r3, r4, r5, r6, r_bsearch, r_derived, r_views]
+def r_policy(ctx):
+    from . import C16
+    ctx.borrow(C16.r4, "R9")
+
+
+RULE_FUNCS = [r1, r2, r2b, r3, r4, r5, r6, r_bsearch, r_derived, r_views, r_policy]
 
 
 def run(ctx):
@@ -1026,6 +1032,8 @@ def _rep(a, b):
 
 
 WITNESSES = [
+    ("batch plates looked up among unobserved plates only", "batchie.scoring.main",
+     _rep("        plate for plate in screen.plates if plate.plate_id in batch_plate_ids\n    ]\n\n    unobserved_plates_not_already_selected", "        plate for plate in screen.plates if plate.plate_id in batch_plate_ids and not plate.is_observed\n    ]\n\n    unobserved_plates_not_already_selected"), ["R9"]),
     ("batch filter dropped in score_chunk", "batchie.scoring.main",
      _rep("    if batch_plate_ids is not None:\n        unobserved_plates = [\n            plate\n            for plate in unobserved_plates\n            if plate.plate_id not in batch_plate_ids\n        ]\n", ""), ["R1"]),
     ("candidate list shuffled with rng", "batchie.scoring.main",
